@@ -86,6 +86,17 @@ fn check_periodic(c: &mut Case, fmt: Fmt, pat: &[u8], n: usize, what: &str) {
 
 fn pattern(kind: usize, p: usize, rng: &mut Rng) -> (Vec<u8>, &'static str) {
     match kind {
+        3 => {
+            // random bytes with an embedded run of equal bytes (period is still p)
+            let mut v = rng.bytes(p);
+            if p >= 12 {
+                let at = rng.below(p - 8);
+                for k in 0..6 {
+                    v[at + k] = 0xAA;
+                }
+            }
+            (v, "random bytes with a 6-byte run")
+        }
         0 => (rng.bytes(p), "random bytes"),
         1 => {
             // two-symbol pattern that still has exact period p: a single 1 followed by zeros
@@ -97,11 +108,11 @@ fn pattern(kind: usize, p: usize, rng: &mut Rng) -> (Vec<u8>, &'static str) {
     }
 }
 
-pub const REQUIRED: &[&str] = &["expansion_incompressible", "periods_small", "periods_window_edge"];
+pub const REQUIRED: &[&str] = &["expansion_incompressible", "periods_small", "periods_window_edge", "all_periods_light", "long_inputs_and_runs"];
 
 pub fn run(cx: &mut Ctx) {
     cx.require(REQUIRED);
-    cx.rule = "expansion bound on every generated input (C08/C09 families, random and de Bruijn sequences); effectiveness bound on periodic inputs: periods {1..=40} u {4080..=4096} u 64 random (quick) / all 1..=4096 (thorough) x pattern {random bytes, two-symbol, ramp} x n in {p,p+1,p+2,p+3,p+17,p+18,p+19,2p+5,3p+1,p+4095,p+4096,p+4097,20000}, both formats. Oracle = the two closed-form bounds of the statement. non-trivial = periodic case with n >= p+3; distinct by input hash".into();
+    cx.rule = "expansion bound on every generated input (C08/C09 families, random and de Bruijn sequences); effectiveness bound on periodic inputs: periods {1..=40} u {4080..=4096} u 64 random (quick) / all 1..=4096 (thorough) x pattern {random bytes, two-symbol, ramp, random with an embedded 6-byte run} x n in {p,p+1,p+2,p+3,p+17,p+18,p+19,2p+5,3p+1,p+4095,p+4096,p+4097,20000}, both formats; plus every period 1..=4096 once with n = 3p+1 (both tiers) and inputs of 70-140 KB / many periods. Oracle = the two closed-form bounds of the statement. non-trivial = periodic case with n >= p+3; distinct by input hash".into();
     let miri = cfg!(miri);
     // expansion bound
     let n = cx.a.n(10_000, 200_000);
@@ -132,6 +143,38 @@ pub fn run(cx: &mut Ctx) {
             });
         }
     }
+    // every period once, light: one random pattern, three periods of data (catches a hole at one
+    // specific displacement anywhere in the window)
+    if !miri {
+        for chunk in 0..64usize {
+            cx.case("all_periods_light", |c| {
+                c.sit("all_periods_light");
+                let mut k = 0;
+                for p in (chunk * 64 + 1)..=(chunk * 64 + 64) {
+                    let mut rng = Rng::new(0xA11 + p as u64);
+                    let (pat, what) = pattern(0, p, &mut rng);
+                    for fmt in [Fmt::Lz10, Fmt::Lz13] {
+                        check_periodic(c, fmt, &pat, 3 * p + 1, what);
+                        k += 1;
+                    }
+                }
+                c.eval(k);
+            });
+        }
+        // inputs longer than 64 KiB and patterns that contain runs, over many periods
+        for (p, n) in [(500usize, 70_000usize), (1000, 140_000), (3000, 70_001), (4096, 80_000), (101, 5000), (37, 40 * 37), (260, 30_000)] {
+            for kind in [0usize, 3] {
+                cx.case("long_inputs_and_runs", |c| {
+                    c.sit("long_inputs_and_runs");
+                    let mut rng = Rng::new((p * 7 + kind) as u64);
+                    let (pat, what) = pattern(kind, p, &mut rng);
+                    for fmt in [Fmt::Lz10, Fmt::Lz13] {
+                        check_periodic(c, fmt, &pat, n, what);
+                    }
+                });
+            }
+        }
+    }
     // effectiveness bound
     let mut periods: Vec<usize> = if miri {
         vec![1, 2, 5]
@@ -147,7 +190,7 @@ pub fn run(cx: &mut Ctx) {
     };
     periods.dedup();
     for p in periods {
-        for kind in 0..3 {
+        for kind in 0..4 {
             cx.case("periodic", |c| {
                 c.sit(if p <= 40 { "periods_small" } else if p >= 4080 { "periods_window_edge" } else { "periods_middle" });
                 let mut rng = Rng::new((p * 3 + kind) as u64);
